@@ -260,7 +260,10 @@ Step genSearchStep(Choices& c, GenState& st, const Pool& pl, const GenCfg& cfg, 
         }
         // cost guard by construction: MultiPV > 1 or no null move make even depth 4 explode with a flat evaluation (14 M nodes seen)
         int dcap = st.cur["MultiPV"] != "1" ? 2 : st.cur["UseNullMove"] == "false" ? 3 : 4;
-        if (lk <= 4) go += " depth " + std::to_string(std::min(dcap, c.range(1, 4)));
+        // UCI_LimitStrength / MaxNPS throttle the search to as little as 10 000 nodes per second: bound those searches by nodes as well
+        bool throttled = st.cur["UCI_LimitStrength"] == "true" || st.cur["MaxNPS"] != "0";
+        std::string nodeCap = throttled && !ponder ? " nodes " + std::to_string(c.range(200, 2000)) : "";
+        if (lk <= 4) go += " depth " + std::to_string(std::min(dcap, c.range(1, 4))) + nodeCap;
         else if (lk <= 6) go += " nodes " + std::to_string(c.range(1, 2000));
         else if (lk == 7) { go += " movetime " + std::to_string(c.range(1, 30)); timed = true; }
         else if (lk <= 9) {
@@ -268,7 +271,7 @@ Step genSearchStep(Choices& c, GenState& st, const Pool& pl, const GenCfg& cfg, 
             if (c.flip()) go += " winc " + std::to_string(c.range(0, 20)) + " binc " + std::to_string(c.range(0, 20));
             if (c.flip()) go += " movestogo " + std::to_string(c.range(0, 40));
             timed = true;
-        } else if (lk == 10) go += " mate " + std::to_string(dcap < 4 ? 1 : c.range(1, 2));
+        } else if (lk == 10) go += " mate " + std::to_string(dcap < 4 ? 1 : c.range(1, 2)) + nodeCap;
         else if (lk == 11) go += " depth " + std::to_string(c.range(1, 3)) + " nodes " + std::to_string(c.range(100, 2000));
         else { if (!ponder) { go += " infinite"; infinite = true; } }
         if (ponder) {
